@@ -671,7 +671,7 @@ Example ptr_in_interface_slot_refuted :
 Proof. differ. Qed.
 
 (** ** pointers: only a pointer to a non-empty object handed to the
-    evaluator, or a pointer to an int/float in a field, is transparent *)
+    evaluator, or a pointer to an int/float/decimal in a field, is transparent *)
 (** a typed slice of pointers: the filter re-boxes the elements as []any *)
 Example ptr_elements_after_filter_refuted :
   differs true "$[@.a.Equal(1)].a" (VSlice ETOther false [P (M [(K "a", F 1)])]) (VSlice ETOther false [M [(K "a", F 1)]])
@@ -687,9 +687,15 @@ Proof. differ. Qed.
 Example ptr_to_string_refuted :
   differs true "$.a.Equal(""x"")" (M [(K "a", P (K "x"))]) (M [(K "a", K "x")]) (Ok (JBool false)) (Ok (JBool true)).
 Proof. differ. Qed.
-Example ptr_to_decimal_refuted :
-  differs true "$.a.Equal(1)" (M [(K "a", P (D 1))]) (M [(K "a", D 1)]) (Ok (JBool false)) (Ok (JBool true)).
-Proof. differ. Qed.
+(** a pointer to a decimal.Decimal is no longer a carrier-dependence (repo fix
+    4453c04, the type assertion at the head of convertToDecimalIfNumberAndCheck):
+    the two renderings have the same abstraction and the answers agree.  Formerly
+    [ptr_to_decimal_refuted], with answers false / true. *)
+Definition agrees (st : bool) (q : string) (d1 d2 : gv) (r : outcome jv) : Prop :=
+  absx st d1 = absx st d2 /\ oabs st (run q d1) = Some r /\ oabs st (run q d2) = Some r.
+Example ptr_to_decimal_agrees :
+  agrees true "$.a.Equal(1)" (M [(K "a", P (D 1))]) (M [(K "a", D 1)]) (Ok (JBool true)).
+Proof. unfold agrees; split; [|split]; vm_compute; reflexivity. Qed.
 Example ptr_to_slice_sum_refuted :
   differs false "$.a.Sum()" (M [(K "a", P (A [F 1]))]) (M [(K "a", A [F 1])]) (Ok n0) (Ok n1).
 Proof. differ. Qed.
